@@ -693,9 +693,9 @@ func init() {
 		Level: "fault_enumeration",
 		Cases: func(tier string) int {
 			if tier == "thorough" {
-				return 300000
+				return 12000000
 			}
-			return 20000
+			return 300000
 		},
 		Run:  runC15,
 		Rule: "each case starts from a seeded well-formed XML / sequence-XML / JSON document (optionally followed by a prefix of itself as a second document) and damages the stored or in-flight bytes: EVERY truncation point 0..L (enumerated), 1-3 seeded local corruptions (set/delete/insert/duplicate/swap of bytes biased to markup characters, stray end tags and braces, invalid UTF-8, NUL, head/tail cuts), or an injected read error / early EOF at a drawn offset; each damaged input goes through the []byte decoders (accept/reject compared with encoding/xml / encoding/json, no partial Map, decode => encodable) and through the reader, Raw, bulk-handler and simulated-file forms under a drawn delivery schedule; one case in ten corrupts gob payloads; two in ten apply generated path / key / sub-key / key-pair / new-value strings to generated Maps (T5: no fault dimension, counted separately under probes.t5_calls). Non-trivial = the damage was applied (truncation, corruption, gob corruption or injected read error); distinct = distinct damaged input x codec.",
